@@ -195,7 +195,10 @@ def random_status_frame(gen, rnd, pid=None):
                 bytes([g]) + R._name_fixed(_rname(rnd, 8), 8, _rtail(rnd)) for g in gs)))
         if k == "version":
             return k, R.frame(4, TO, EXT, pid, 0x1F, R.ext(0xFF30, R.version_body(
-                rnd.random() < 0.5, rnd.choice([["1.3.3"], ["1.3.3", "1.3.2"], ["2"]]), "|")))
+                rnd.random() < 0.5, rnd.choice([["1.3.3"], ["1.3.3", "1.3.2"], ["2"],
+                                                # the length is one unsigned byte: up to 255
+                                                ["1.2.4-beta.20240131"] * 7,
+                                                ["9" * 127, "8" * 127]]), "|")))
         if k == "error":
             return k, R.frame(4, TO, EXT, pid, 0x1F, R.ext(0xFF10, R.error_body(
                 rnd.randint(0, 3), rnd.choice([None, "ER: FFFE", "E1"]))))
@@ -245,7 +248,9 @@ def random_status_frame(gen, rnd, pid=None):
         return k, R.frame(5, TO, EXT, pid, 0x1F, R.ext(0xFF13, body))
     if k == "version":
         return k, R.frame(5, TO, EXT, pid, 0x1F, R.ext(0xFF30, R.version_body(
-            rnd.random() < 0.5, rnd.choice([["1.0.3"], ["1.0.3", "1.0.2"], ["2"]]), ",")))
+            rnd.random() < 0.5, rnd.choice([["1.0.3"], ["1.0.3", "1.0.2"], ["2"],
+                                                ["1.2.4-beta.20240131"] * 7,
+                                                ["9" * 127, "8" * 127]]), ",")))
     if k == "error":
         return k, R.frame(5, TO, EXT, pid, 0x1F, R.ext(0xFF10, R.error_body(
             rnd.randint(0, 15), rnd.choice([None, "ER: 12", "E1"]))))
